@@ -178,18 +178,10 @@ Proof.
   now rewrite E.
 Qed.
 
-Lemma interval_plain mn mx :
-  i64_min <= mn -> mx <= i64_max -> mn <= mx -> ~ (mn = i64_min /\ mx = 0) ->
-  interval mn mx = Val (mx - mn).
+Lemma interval_plain mn mx : mn <= mx -> interval mn mx = Val (mx - mn).
 Proof.
-  intros H1 H2 H3 H4. unfold interval.
-  destruct ((mn <? 0) && (0 <? mx)) eqn:E.
-  - reflexivity.
-  - assert (Hr : i64_min <= mx - mn <= i64_max).
-    { unfold i64_min, i64_max in *.
-      apply andb_false_iff in E as [E|E]; [apply Z.ltb_ge in E|apply Z.ltb_ge in E]; lia. }
-    rewrite sub64_ok by exact Hr. cbn [bind].
-    destruct (Z.ltb_spec (mx - mn) 0); [lia|reflexivity].
+  intros H. unfold interval. destruct ((mn <? 0) && (0 <? mx)); [reflexivity|].
+  cbn zeta. destruct (Z.ltb_spec (mx - mn) 0); [lia|reflexivity].
 Qed.
 
 Lemma create_col_total t xs off mn0 mx0 delta null :
@@ -218,12 +210,12 @@ Proof.
   end; cbn [wmax]; lia.
 Qed.
 
+(* History: before /repo 3e7ef89 this needed ~ (mn = i64_min /\ mx = 0) (finding F19). *)
 Theorem new_boxed_plain_total xs mn mx null :
   i64_min <= mn -> mx <= i64_max -> mn <= mx -> bounded mn mx xs ->
-  ~ (mn = i64_min /\ mx = 0) ->
   exists col, new_boxed xs mn mx false null = Val col.
 Proof.
-  intros H1 H2 H3 HB HG. unfold new_boxed. cbn [bind].
+  intros H1 H2 H3 HB. unfold new_boxed. cbn [bind].
   rewrite interval_plain by assumption. cbn [bind].
   destruct (choose mn mx (mx - mn)) as [[t off]|] eqn:Ec; [|eauto].
   destruct (choose_fits _ _ _ _ H1 H2 H3 Ec) as (Ho & Hz & Hw & Hw').
@@ -234,14 +226,15 @@ Proof.
   - unfold i64_min, i64_max in *. destruct Ho as [-> | ->]; [specialize (Hz eq_refl)|]; lia.
 Qed.
 
-(* F19: the class excluded above is reached, e.g. by [i64::MIN, 0] *)
-Lemma new_boxed_plain_refuted :
-  exists xs mn mx, i64_min <= mn /\ mx <= i64_max /\ mn <= mx /\ bounded mn mx xs /\
-                   new_boxed xs mn mx false None = Panic SubOverflow.
-Proof.
-  exists [i64_min; 0], i64_min, 0. repeat split; try (unfold i64_min, i64_max; lia).
-  repeat constructor; unfold i64_min; lia.
-Qed.
+(* the former F19 witness [i64::MIN, 0] now gets the plain I64 layout *)
+Lemma new_boxed_former_F19 :
+  new_boxed [i64_min; 0] i64_min 0 false None =
+  Val (mk_column 2 (Some (i64_min, 0)) [] [SInts EI64 [i64_min; 0]]).
+Proof. reflexivity. Qed.
+
+(* the statistics of an empty buffer (min = i64::MAX, max = i64::MIN) no longer overflow either *)
+Lemma new_boxed_empty null : exists col, new_boxed [] i64_max i64_min false null = Val col.
+Proof. destruct null; eexists; reflexivity. Qed.
 
 (* ---------------------------------------------------------------------------------------------- *)
 (* IntColBuffer statistics are exact *)
@@ -301,9 +294,12 @@ Qed.
 
 (* ---------------------------------------------------------------------------------------------- *)
 (* T3: the delta path.  The transform subtracts neighbours in i64; it returns a column when every
-   step fits an i64 (F10 is the class where one does not), no step is exactly -2^63 and the first
-   value is not i64::MIN (else `max - min` can overflow as in F19), and the maximum is not within
-   2^32 of i64::MAX (else `max - offset` of the range metadata can overflow). *)
+   step fits an i64 (which IntColBuffer's statistics now guarantee whenever they allow delta coding:
+   [istats_allow_safe]; before /repo 481c464 they did not, finding F10) and the maximum is not within
+   2^32 of i64::MAX (else `max - offset` of the range metadata in create_col can overflow; that needs a
+   run of more than 2^31 values to be reached from statistics that select delta coding).
+   History: before /repo 3e7ef89 two more guards were needed (first value <> i64::MIN, no step of
+   exactly -2^63) because `max - min` could overflow. *)
 
 Fixpoint diffs (prev : Z) (vs : list Z) : list Z :=
   match vs with [] => [] | c :: r => (c - prev) :: diffs c r end.
@@ -346,35 +342,32 @@ Proof.
   - constructor; [lia|]. eapply Forall_impl; [|exact (I2 H2)]. cbn. intros; lia.
 Qed.
 
+Lemma delta_safe_diffs_i64 : forall r v0, delta_safe v0 r ->
+  Forall (fun d => i64_min <= d <= i64_max) (diffs v0 r).
+Proof.
+  induction r as [|c r IH]; intros v0 Hs; [constructor|].
+  destruct Hs as [H1 H2]. cbn [diffs]. constructor; [exact H1|now apply IH].
+Qed.
+
 Theorem new_boxed_delta_total v0 r mn0 mx0 null :
   i64s (v0 :: r) -> delta_safe v0 r ->
   bounded mn0 mx0 (v0 :: r) -> In mn0 (v0 :: r) -> In mx0 (v0 :: r) ->
   mx0 <= 9223372032559808511 ->                       (* i64::MAX - 2^32 *)
-  v0 <> i64_min -> (forall d, In d (diffs v0 r) -> d <> i64_min) ->
   exists col, new_boxed (v0 :: r) mn0 mx0 true null = Val col.
 Proof.
-  intros Hx Hs HB Hmn Hmx Htop Hv0 Hnd.
+  intros Hx Hs HB Hmn Hmx Htop.
   unfold new_boxed. cbn [delta_transform].
   destruct (delta_loop_total r v0 v0 v0 Hs) as (mn & mx & E & I1 & I2 & I3 & I4 & I5).
   rewrite E. cbn [bind].
   inversion Hx as [|? ? Hv0r Hxr]; subst.
-  assert (Hmnlo : i64_min < mn).
-  { destruct I4 as [->|I4]; [unfold i64_min in *; lia|].
-    assert (Hne := Hnd _ I4).
-    assert (Hin : Forall (fun d => i64_min <= d <= i64_max) (diffs v0 r)).
-    { clear - Hs. revert v0 Hs. induction r as [|c r IH]; intros v0 Hs; [constructor|].
-      destruct Hs as [H1 H2]. cbn [diffs]. constructor; [exact H1|now apply IH]. }
-    assert (H := proj1 (Forall_forall _ _) Hin _ I4). cbn in H. lia. }
+  pose proof (delta_safe_diffs_i64 r v0 Hs) as Hin.
+  assert (Hmnlo : i64_min <= mn).
+  { destruct I4 as [->|I4]; [lia|]. assert (H := proj1 (Forall_forall _ _) Hin _ I4). cbn in H. lia. }
   assert (Hmxhi : mx <= i64_max).
-  { destruct I5 as [->|I5]; [lia|].
-    assert (Hin : Forall (fun d => i64_min <= d <= i64_max) (diffs v0 r)).
-    { clear - Hs. revert v0 Hs. induction r as [|c r IH]; intros v0 Hs; [constructor|].
-      destruct Hs as [H1 H2]. cbn [diffs]. constructor; [exact H1|now apply IH]. }
-    assert (H := proj1 (Forall_forall _ _) Hin _ I5). cbn in H. lia. }
-  rewrite interval_plain by (unfold i64_min in *; lia). cbn [bind].
+  { destruct I5 as [->|I5]; [lia|]. assert (H := proj1 (Forall_forall _ _) Hin _ I5). cbn in H. lia. }
+  rewrite interval_plain by lia. cbn [bind].
   destruct (choose mn mx (mx - mn)) as [[t off]|] eqn:Ec; [|eauto].
   destruct (choose_fits mn mx t off) as (Ho & Hz & Hw & Hw'); try lia; [exact Ec|].
-  (* facts about the original values *)
   assert (Hb0 := proj1 (Forall_forall _ _) HB).
   assert (Hmn0 : mn0 <= v0) by (apply (Hb0 v0); now left).
   assert (Hmx0 : v0 <= mx0) by (apply (Hb0 v0); now left).
@@ -389,16 +382,14 @@ Proof.
     destruct (Z.lt_trichotomy mn 0) as [Hneg|[H0|Hpos]].
     + unfold i64_min, i64_max in *. lia.
     + lia.
-    + (* all steps positive: the values increase from v0, so min0 >= v0 >= mn *)
-      assert (Hinc : Forall (fun x => v0 <= x) r).
+    + assert (Hinc : Forall (fun x => v0 <= x) r).
       { apply (proj1 (diffs_monotone r v0)). eapply Forall_impl; [|exact I3]. cbn. intros; lia. }
       assert (v0 <= mn0).
       { destruct Hmn as [<-|Hmn]; [lia|]. exact (proj1 (Forall_forall _ _) Hinc _ Hmn). }
       unfold i64_min, i64_max in *. lia.
   - destruct Ho as [-> | ->]; [lia|].
     destruct (Z.lt_trichotomy mx 0) as [Hneg|[H0|Hpos]].
-    + (* all steps negative: the values decrease from v0 < 0 *)
-      assert (Hdec : Forall (fun x => x <= v0) r).
+    + assert (Hdec : Forall (fun x => x <= v0) r).
       { apply (proj2 (diffs_monotone r v0)). eapply Forall_impl; [|exact I3]. cbn. intros; lia. }
       assert (mx0 <= v0).
       { destruct Hmx as [<-|Hmx]; [lia|]. exact (proj1 (Forall_forall _ _) Hdec _ Hmx). }
@@ -407,15 +398,41 @@ Proof.
     + unfold i64_min, i64_max in *. cbn [wmax] in *. lia.
 Qed.
 
-(* F10: IntColBuffer's statistics allow delta coding for [i64::MIN+1, i64::MAX-1] (the difference
-   is only checked when the value does not increase) and the transform then overflows *)
-Lemma int_finalize_delta_refuted :
-  exists data, i64s data /\
-    let st := istats_push_all istats_init data in
-    st_allow st = true /\ delta_decision st (zlen data) = true /\
-    int_finalize data st None = Panic SubOverflow.
+(* IntColBuffer's statistics: delta coding stays allowed only if every step fits an i64 *)
+Lemma istats_push_allow st e :
+  st_allow (istats_push st e) = true ->
+  st_allow st = true /\ (st_seen st = true -> i64_min <= e - st_last st <= i64_max).
 Proof.
-  exists [i64_min + 1; i64_max - 1]. split.
-  - repeat constructor; unfold i64_min, i64_max; lia.
-  - cbn zeta. repeat split; reflexivity.
+  cbn [istats_push st_allow]. destruct (st_seen st); cbn [andb].
+  - destruct (in_i64 (e - st_last st)) eqn:E; cbn [negb]; [|discriminate].
+    intros H. split; [exact H|]. intros _. now apply in_i64_iff.
+  - intros H. split; [exact H|discriminate].
 Qed.
+
+Lemma istats_allow_safe_seen : forall data st,
+  st_seen st = true -> st_allow (istats_push_all st data) = true ->
+  st_allow st = true /\ delta_safe (st_last st) data.
+Proof.
+  induction data as [|e data IH]; intros st Hs H; [split; [exact H|exact I]|].
+  unfold istats_push_all in H. cbn [fold_left] in H. fold (istats_push_all (istats_push st e) data) in H.
+  destruct (IH (istats_push st e) eq_refl H) as [Ha Hd].
+  destruct (istats_push_allow st e Ha) as [Ha' Hstep].
+  split; [exact Ha'|]. cbn [delta_safe]. split; [now apply Hstep|exact Hd].
+Qed.
+
+Theorem istats_allow_safe v0 r :
+  st_allow (istats_push_all istats_init (v0 :: r)) = true -> delta_safe v0 r.
+Proof.
+  intros H. unfold istats_push_all in H. cbn [fold_left] in H.
+  fold (istats_push_all (istats_push istats_init v0) r) in H.
+  exact (proj2 (istats_allow_safe_seen r (istats_push istats_init v0) eq_refl H)).
+Qed.
+
+(* the former F10 witness: the statistics now forbid delta coding for [i64::MIN+1, i64::MAX-1] and
+   the column gets the plain I64 layout *)
+Lemma int_finalize_former_F10 :
+  let data := [i64_min + 1; i64_max - 1] in
+  let st := istats_push_all istats_init data in
+  st_allow st = false /\
+  int_finalize data st None = Val (mk_column 2 (Some (i64_min + 1, i64_max - 1)) [] [SInts EI64 data]).
+Proof. split; reflexivity. Qed.
